@@ -157,6 +157,19 @@ def run(prog: Program, col: Collector, tier: str, refs: Optional[Refs] = None, c
     col.rule("R06.6", "a Slice's values lie in its declared output Bint[dtype]: stop is clamped to dtype before construction", floor=1)
     _slice_bound(prog, col, refs)
 
+    # ---------------------------------------------------------------- R06.7 (shared with C01: R01.11)
+    from . import algebra
+    algebra.r_op_params_used(prog, col, refs, cat, "R06.7")
+
+    # ---------------------------------------------------------------- R06.8
+    col.rule("R06.8", "a cast to an integer type keeps the operand's size; a constant size is declared only for types with that many values", floor=1)
+    _cast_sizes(prog, col, refs, cat)
+
+    # ---------------------------------------------------------------- R06.9 (shared with C04: R04.4)
+    col.rule("R06.9", "a substitution pushed into the operands of a term reaches every operand that mentions a key (no input is left free)", floor=2)
+    from . import c04
+    c04._quantified_guards(prog, col, refs, cat, c04._subs_collections(prog, refs, cat))
+
     # ---------------------------------------------------------------- R06.5
     col.rule("R06.5", "dimension parameters are normalised modulo the rank in every branch before use as indices", floor=2)
     _axis_normalisation(prog, col, refs, cat)
@@ -588,3 +601,57 @@ def _axis_normalisation(prog: Program, col: Collector, refs: Refs, cat: Catalogu
                 col.check(ok, construct, f"`{raw}` is reduced modulo the rank before it is compared with dimension indices",
                           f"`{raw}` (as passed by the user, possibly negative) flows into `{sname}` without `% rank` in this branch: negative axes never match a dimension index, "
                           "so the declared shape differs from the shape the op returns", f.loc(d))
+
+
+# ---------------------------------------------------------------------- R06.8
+# number of distinct values of the integer-like numpy / torch dtypes by name (external fact about the array libraries)
+DTYPE_CARDINALITY = {"bool": 2, "bool_": 2, "uint8": 2 ** 8, "int8": 2 ** 8, "int16": 2 ** 16, "uint16": 2 ** 16, "int32": 2 ** 32, "uint32": 2 ** 32,
+                     "int64": 2 ** 64, "uint64": 2 ** 64, "int": 2 ** 64, "long": 2 ** 64, "short": 2 ** 16, "byte": 2 ** 8}
+
+
+def _cast_sizes(prog: Program, col: Collector, refs: Refs, cat: Catalogue):
+    n = 0
+    for r in cat.registrations:
+        if r.registry != "funsor.domains.find_domain" or r.target is None or not r.pattern:
+            continue
+        ref = cat.op_class_ref(refs.resolve(r.pattern[0]) if isinstance(r.pattern[0], (ast.Name, ast.Attribute)) else None)
+        if ref is None:
+            continue
+        ops_ = cat.ops_under(ref)
+        if not ops_ or not all("dtype" in (o.params or ()) for o in ops_):
+            continue
+        f = r.target
+        for node in walk_no_nested(f.node):
+            if not isinstance(node, ast.If):
+                continue
+            t = node.test
+            names = None
+            if isinstance(t, ast.Compare) and len(t.ops) == 1 and "dtype" in norm(t.left):
+                c = t.comparators[0]
+                if isinstance(t.ops[0], ast.In) and isinstance(c, (ast.Tuple, ast.List, ast.Set)) and all(isinstance(e, ast.Constant) and isinstance(e.value, str) for e in c.elts):
+                    names = [e.value for e in c.elts]
+                elif isinstance(t.ops[0], ast.In) and isinstance(c, ast.Constant) and isinstance(c.value, str):
+                    names = [c.value]  # `x in ("bool")` is a substring test on one string; the whole string is the intended member
+                elif isinstance(t.ops[0], ast.Eq) and isinstance(c, ast.Constant) and isinstance(c.value, str):
+                    names = [c.value]
+            if names is None:
+                continue
+            consts = [st for st in node.body if isinstance(st, ast.Assign) and isinstance(st.value, ast.Constant) and isinstance(st.value.value, int)
+                      and not isinstance(st.value.value, bool)]
+            rets = [x for st in node.body for x in ast.walk(st) if isinstance(x, ast.Subscript) and isinstance(x.slice, ast.Tuple) and x.slice.elts
+                    and isinstance(x.slice.elts[0], ast.Constant) and isinstance(x.slice.elts[0].value, int)]
+            sizes = [st.value.value for st in consts] + [x.slice.elts[0].value for x in rets]
+            for K in sizes:
+                n += 1
+                too_big = sorted(s_ for s_ in names if DTYPE_CARDINALITY.get(s_, 0) > K)
+                unknown = sorted(s_ for s_ in names if s_ not in DTYPE_CARDINALITY)
+                construct = f"{f.fq}::size {K} for {names}"
+                if too_big:
+                    col.violation(construct, f"a cast to {too_big} is declared to have size {K}, but the cast keeps the operand's values (a Bint[n] operand has values up to n-1 "
+                                  f"and {too_big[0]} can hold {DTYPE_CARDINALITY[too_big[0]]} of them): the declared bounded-integer output does not contain the data", f.loc(node))
+                elif unknown:
+                    col.unresolved(construct, f"dtype name(s) {unknown} not in the cardinality table", f.loc(node))
+                else:
+                    col.ok(construct, f"every listed type has at most {K} values", f.loc(node))
+    if n == 0:
+        raise AnalysisError("no constant-size branch found in the find_domain rule of the cast op (anchor: _find_domain_astype)")
